@@ -174,6 +174,19 @@ def correspond(ctx):
     from pptx.enum.shapes import MSO_SHAPE
     from pptx.shapes.autoshape import AutoShapeType
 
+    # "maps to a distinct token and back to itself" as a user meets it: every member assigned through every
+    # enumeration-valued property of the object model and read back through it (members whose integer value is 0 or 1
+    # are where a consumer's truthiness or `in (True, False)` test goes wrong while the tables themselves are right)
+    from harness.props.c11 import proxy_enum_sweep
+    def keyfn(p, cls, m):
+        # a member that shares its XML token with an earlier member of the same enumeration is the listed `enum-dup`
+        # finding, whichever property exposes it
+        toks = [x.xml_value for x in cls if getattr(x, "xml_value", None)]
+        first = next((x for x in cls if getattr(x, "xml_value", None) == getattr(m, "xml_value", None)), m)
+        if getattr(m, "xml_value", None) and toks.count(m.xml_value) > 1 and first is not m:
+            return f"enum-dup:{cls.__name__}.{m.name}"
+        return f"enum-proxy-readback:{p.kind}.{p.name}:{m.name}"
+    proxy_enum_sweep(ctx, keyfn)
     enums, presets, autos, erratum, no_row = collect()
     for n, dn in erratum:
         ctx.note(f"standard's erratum: preset '{n}' missing, duplicated '{dn}' block used")
